@@ -22,6 +22,7 @@ RULE = (
     "resumed run: the calls of that run; for a run in which the likelihood raises at a generated call: including that call). Non-trivial = >=3 distinct aspire call sites reached the likelihood in the run "
     "(initial draw, kernel target, post-mutation re-evaluation, enlargement, evidence samples...)."
 )
+RULE += " " + ('For SMC samplers in half of the cases the same sampler object is run a second time: every call of that run is checked too and the count covers both runs.')
 ASSUMPTIONS = [
     "kernel packages are harness doubles (every target evaluation of the kernel goes through aspire's own log_prob)",
     "prior comparison tolerance 4e-6*(|v|+1) for float32 populations, 1e-12*(|v|+1) for float64",
